@@ -21,13 +21,16 @@ CFG = dict(
          "pattern of length 0..6 (distinct error numbers, a pull counter on the source); write_trust_iter "
          "and WriteTrustIter::write on buffer length 0..5 x announced length 0..6 x actual length 0..6 "
          "into a recording buffer (every uset call logged) and into the Vec / VecDeque / Array1 "
-         "MaybeUninit buffers pre-filled with a sentinel.  thorough widens every bound.  Compared exactly "
+         "MaybeUninit buffers pre-filled with a sentinel; Vec1Mut::get_mut (len 0..5 x index 0..len+1) and apply_mut_with "
+         "(len 0..5 x other 0..5, recording callback) on Vec / wrapped VecDeque / Array1 / ArrayViewMut1; "
+         "Vec1::sort_unstable_by on EVERY sequence over a 3-letter alphabet up to length 5, both orders, on Vec, "
+         "Array1, contiguous and wrapped VecDeque (copy-out / write-back path).  thorough widens every bound.  Compared exactly "
          "with the model (binary64 model evaluated with PrimFloat; non-representable steps through a "
          "comparator that tolerates 1e-9 and, only when (b-a)/step is within 1e-9 of an integer, one "
          "element more or less — DESIGN 5.1); tags nt=0 mark trivial cases (empty result / empty buffer)",
     theorem_hint="Props/C19.v: C19_range_int, C19_range_unsigned, C19_range_exact_rational, C19_linspace_*, "
-                 "C19_collect_*, C19_try_collect_*, C19_write_trust_iter*",
-    level_text="Proof: 26 theorems (Props/C19.v, all axiom-free) about one polymorphic Gallina model of "
+                 "C19_collect_*, C19_try_collect_*, C19_write_trust_iter*, C19_apply_mut_with, C19_sort_unstable_by",
+    level_text="Proof: 29 theorems (Props/C19.v, all axiom-free) about one polymorphic Gallina model of "
                "linspace.rs/create.rs (as repaired) and of the collectors of own.rs/trusted.rs/uninit.rs: "
                "range = exactly the terms of the arithmetic progression strictly before the end (count and "
                "elements tied by an iff) over Z signed, Z unsigned and exact rationals; empty span = []; linspace "
@@ -35,7 +38,8 @@ CFG = dict(
                "double-ended queue with an exact size hint; full = repeat; trusted / explicit-length collection "
                "= identity with every slot written once; a completed collection never alters the items; "
                "optional -> null-encoded; try-collectors = first error else all; write_trust_iter = all slots "
-               "once (equal length / singleton broadcast), Ok on an empty buffer, else Err with no slot written. "
+               "once (equal length / singleton broadcast), Ok on an empty buffer, else Err with no slot written; apply_mut_with / get_mut positional laws; sort_unstable_by leaves a "
+               "sorted permutation. "
                "The model is tied to the code by an exhaustive small-scope differential run through the public API.",
     level_note="Trusted: Coq kernel; the hand-written model; std's FromIterator / Array1::from_iter (modelled as "
                "the identity) and std's short-circuiting collect into Result; IEEE rounding (the float theorems "
@@ -44,7 +48,7 @@ CFG = dict(
                "but not reachable through the public API (module `linspace` is private), hence not compared. "
                "Polars backend not exercised (separate crate).",
     trusted=["std Iterator::collect into Vec/VecDeque/Result and ndarray Array1::from_iter/from_vec (modelled as "
-             "identity / first-error short circuit)",
+             "identity / first-error short circuit); slice::sort_unstable_by (modelled by an insertion sort: for a total order the sorted sequence of keys is unique)",
              "binary64 rounding: float statements are proved in exact rational arithmetic (Q) for the same "
              "polymorphic model that is executed at PrimFloat"],
     assumptions=["integer magnitudes small enough that i32/i64/u64/usize arithmetic does not overflow (DESIGN 5.2)",
